@@ -130,3 +130,21 @@ Definition C08_hy_agree (R S gs s : nat) (P : params unit (list Z) unit) (gshape
   && (if forallb negb (o_hung o)
       then hy_lockstep_agree P h v0 b0 (map (fun sn => last_or sn v0) (o_snaps o))
       else negb (synced P h)).
+
+(* parameters stored in another dtype than float32 (float64 / bfloat16 / float16): the column's values are not recomputed
+   in Coq (the exact arithmetic of DistExec is binary32); the model still predicts the all-gather logs, the creations and
+   the hung ranks, and that every rank completed every step; the values are decided by the certified checker against the
+   (rounded) FullyShard-only implementation run. *)
+Definition C08_hy_agree_struct (R S gs s : nat) (P : params unit (list Z) unit) (gshapes : list (list Z)) (maxdim : Z) (merge : bool)
+           (presence : list (list bool)) (py_starves : bool) (o : observed) : bool :=
+  let ls := map (local_shape S s) gshapes in
+  let nbs := fs_nbs (nblk_of maxdim merge) ls in
+  let h := column_history S s gshapes maxdim merge presence in
+  let fuel := 4 * (length h + 1) * (R + 1) in
+  let m := hy_model_obs P h (repeat [] (p_nb P)) (repeat [] (p_nb P)) fuel in
+  (p_world P =? R) && (p_gs P =? gs) && (p_nb P =? lsum nbs)
+  && list_eqb Nat.eqb (map (@length snapshot) (o_snaps m)) (map (@length snapshot) (o_snaps o))
+  && list_eqb log_eqb (map (fun l => map (glob_event S s) (gathers l)) (o_logs m)) (map gathers (o_logs o))
+  && list_eqb Bool.eqb (o_hung m) (o_hung o)
+  && forallb (fun l => log_eqb (creations l) (user_mesh_events R S ++ hy_ctor_log R S gs)) (o_logs o)
+  && Bool.eqb py_starves (negb (forallb (no_starv_entry P) h)).
